@@ -52,7 +52,8 @@ theorem vlog_step {s s' : Sys} (a : Act) (h : step s a = .ok s') :
         simp [inFinishBy, finishing, hf, hp] at hnfb
         simp [hnfb] at hc
       rw [vlog_of_not_finishing hnf]
-      exact vlog_of_not_finishing (s := { setInst s i _ with infl := none }) (fun f hf => by cases hf)
+      rw [vlog_of_not_finishing (s := dropInfl _) (fun f hf => by rw [dropInfl_infl] at hf; cases hf)]
+      rw [dropInfl_log]; rfl
     · exact vlog_eq_of rfl rfl
   | begin c t =>
     obtain ⟨hnone, _, rfl⟩ := begin_ok h
@@ -145,7 +146,7 @@ theorem start_step {s s' : Sys} (a : Act) (h : step s a = .ok s') {i : Nat} (hi 
     obtain ⟨_, _, rfl⟩ := abort_ok h
     dsimp only
     split
-    · exact setInst_start (s := s) i rfl
+    · rw [dropInfl_insts]; exact setInst_start (s := s) i rfl
     · exact setInst_start i rfl
   | begin c t => obtain ⟨_, _, rfl⟩ := begin_ok h; rfl
   | store ws => obtain ⟨f, ws', _, _, rfl⟩ := store_ok h; rfl
@@ -206,7 +207,9 @@ theorem log_grows {s s' : Sys} (a : Act) (h : step s a = .ok s') :
   | abort i =>
     obtain ⟨_, _, rfl⟩ := abort_ok h
     dsimp only
-    split <;> exact Or.inl rfl
+    split
+    · rw [dropInfl_log]; exact Or.inl rfl
+    · exact Or.inl rfl
   | begin c t => obtain ⟨_, _, rfl⟩ := begin_ok h; exact Or.inl rfl
   | store ws => obtain ⟨f, ws', _, _, rfl⟩ := store_ok h; exact Or.inl rfl
   | vote => obtain ⟨f, _, _, rfl⟩ := vote_ok h; exact Or.inl rfl
